@@ -24,7 +24,8 @@ RULE = ('generated multi-function / multi-thread programs (32 shapes: loops, rec
 ASSUMPTIONS = ['only events CPython delivers to the trace function are in the quantifier',
                'method tracepoints always carry method_name (the unnamed form is undocumented)']
 REQUIRE = {'reference_events': 50000, 'expected_actions': 2000, 'runs_with_threads': 10, 'colocated_runs': 40,
-           'method_tracepoint_hits': 100}
+           'method_tracepoint_hits': 100,
+           'installed_via_convert_response': 60, 'updated_while_matching': 20, 'twin_file_runs': 60}
 
 
 def plan(tier, seed):
@@ -69,10 +70,17 @@ def case_place(seed, out, spec, wd):
     os.makedirs(os.path.join(sub, 'other'), exist_ok=True)
     prog = programs.generate(r, sub, 'a', escaping=False)
     decoy = programs.generate(r, os.path.join(sub, 'other'), 'b', n_shapes=2, escaping=False)
+    twin = r.chance(0.4)
+    if twin:
+        # a second file with the very same function names (and line numbers) as the first one
+        with open(decoy.path, 'w') as f:
+            f.write(prog.src)
+        decoy.lines, decoy.func_lines, decoy.src = list(prog.lines), dict(prog.func_lines), prog.src
     mod = programs.load(prog.path)
     dmod = programs.load(decoy.path)
     ntp = r.pick([0, 1, 2, 3, 4, 6, 8])
     tps = []       # (tp_id, base, line|None, method|None, expect kinds)
+    wire_protos = []
     triggers = {}
     colocated = False
     for i in range(ntp):
@@ -94,11 +102,14 @@ def case_place(seed, out, spec, wd):
         else:
             method = r.pick(list(prog.func_lines.keys()))
             line = prog.func_lines[method]
+            if twin and r.chance(0.5):
+                base = decoy.base
         tp_id, args, metrics, expect = make_tp(r, i, base, line, method)
         trig = line_trigger(tp_id, base, line, args, [], metrics)
         if trig is None:
             continue
         tps.append((tp_id, base, None if method else line, method, expect))
+        wire_protos.append((tp_id, base, line, args, metrics))
         # merged like convert_response (by location id) half of the time, else separate triggers
         if r.chance(0.5) and trig.id in triggers:
             triggers[trig.id].merge_actions(trig.actions)
@@ -107,7 +118,40 @@ def case_place(seed, out, spec, wd):
             triggers[trig.id + '#%d' % i if trig.id in triggers else trig.id] = trig
     rig = Rig(custom={'APP_ROOT': sub}, host_dir=sub,
               plugins=[plugins.RecLogger(), plugins.RecMetrics(), plugins.RecSpans()])
-    rig.install(list(triggers.values()))
+    via_wire = r.chance(0.4)
+    if via_wire:
+        # the way the agent receives them: protobuf messages through convert_response (which merges by location)
+        from deepproto.proto.tracepoint.v1.tracepoint_pb2 import TracePointConfig, Metric, MetricType
+        from deep.grpc import convert_response
+        protos = [TracePointConfig(ID=i_, path=b_, line_number=l_ or 0, args=a_,
+                                   metrics=[Metric(name=m_.name, type=MetricType.Value(m_.type.upper())) for m_ in ms_])
+                  for i_, b_, l_, a_, ms_ in wire_protos]
+        installed = convert_response(protos)
+    else:
+        installed = list(triggers.values())
+    mid_update = r.chance(0.15) and len(installed) >= 1
+    if mid_update:
+        # a configuration update lands while an event is being matched: the first trigger's location check installs
+        # the new list (same tracepoints minus a decoy) - every tracepoint of both lists must still act at its event
+        from deep.api.tracepoint.trigger import Trigger, LineLocation, Location
+        keep = list(installed)
+        # the update lands exactly while an event that has a tracepoint is being matched (if there is one)
+        target = next(((b_, l_) for _, b_, l_, m_, _ in tps if l_ is not None and b_ == prog.base), None)
+        if target is not None:
+            keep.sort(key=lambda t: 0 if getattr(t, 'id', None) == '%s#%s' % target else 1)
+        swapper = Trigger(LineLocation('never_%s.py' % seed, 1, Location.Position.START), [])
+        orig = swapper.at_location
+        fired = []
+
+        def swapping(event, file, line_, function_name, frame):
+            if not fired and event == 'line' and file == prog.base and (target is None or line_ == target[1]):
+                fired.append(1)
+                rig.handler.new_config(list(keep))
+            return orig(event, file, line_, function_name, frame)
+
+        swapper.at_location = swapping
+        installed = [swapper] + keep
+    rig.install(installed)
     actual = []   # (tp_id, kind, ev.seq)
 
     def hook(name, callback, payload):
@@ -186,6 +230,12 @@ def case_place(seed, out, spec, wd):
         out.count('runs_with_threads')
     if colocated:
         out.count('colocated_runs')
+    if via_wire:
+        out.count('installed_via_convert_response')
+    if mid_update:
+        out.count('updated_while_matching')
+    if twin:
+        out.count('twin_file_runs')
     out.case({'shapes': prog.shapes, 'calls': prog.calls, 'tps': witness['tracepoints'], 'decoy': use_decoy},
              nontrivial=bool(expected) or bool(tps),
              sample={'shapes': prog.shapes, 'tracepoints': witness['tracepoints'], 'reference_events': len(rig.events),
